@@ -109,6 +109,7 @@ class Extract:
         self.body_end = []      # before the tail expression (or before the closing brace when the body ends with a statement)
         self.noname = False
         self.derive = ('Clone', 'Copy', 'PartialEq', 'Eq')
+        self.add_derive = ()    # Verus-only derives (e.g. Structural: makes the derived == structural equality)
 
 
 def parse_vspec(path):
@@ -190,6 +191,8 @@ def parse_vspec(path):
                 sink = ex.contract
             elif d == 'noname':
                 ex.noname = True
+            elif d.startswith('add-derive'):
+                ex.add_derive = tuple(d.split()[1:])
             elif d.startswith('derive'):
                 ex.derive = tuple(d.split()[1:])
             elif d.startswith('loop-after '):
@@ -298,6 +301,7 @@ def render_extract(ex, report, vacuity=False):
             if not count_ok(n, k):
                 raise AnchorLost(f"{fid}: rewrite {label} expected {n} hits, got {k}")
             rep['rewrites'][label] = k
+        keep = keep + [x for x in ex.add_derive if x not in keep]
         if keep:
             text = '#[derive(' + ', '.join(keep) + ')] ' + text
             rep['rewrites']['R0 derive-filter'] = 1
